@@ -37,7 +37,7 @@ def plan(tier):
 
 
 def ncases(tier):
-    return 2500 if tier == "quick" else 12000
+    return 6000 if tier == "quick" else 12000
 
 
 class Item:
